@@ -331,9 +331,10 @@ Fixpoint h_trace (ssz : nat) (s : hstate) (ops : list hop) : list (nat * nat) :=
 (* InitSurveillanceAreaGrid::initialize on a ParticleSet (n particles, layout l) *)
 
 Definition e_grid := "InitSurveillanceAreaGrid::initialize".
-Definition grid_ret (nx ny n : nat) : bool := n =? nx * ny.
+(* returns false unless the particle count is nx * ny and (commit c09dbd3) the states have 4 rows *)
+Definition grid_ret (nx ny n : nat) (l : layout) : bool := (n =? nx * ny) && (ldim l =? 4).
 Definition p_grid (nx ny n : nat) (l : layout) : prog :=
-  when (grid_ret nx ny n)
+  when (grid_ret nx ny n l)
     (for_ nx (fun i => for_ ny (fun j =>
        [ It e_grid "state().col(i*ny+j)" (Idx n (i * ny + j));
          It e_grid "col<<x,0,y,0" (Comma (ldim l) 4) ]))).
@@ -407,7 +408,10 @@ Definition p_ut_core (e : string) (li : layout) (comps w : nat) (valid : bool) (
        else
          [ It e "output.mean(i).bottomRows(circ)" (Blk odim 1 (odim - circ lo) 0 (circ lo) 1);
            It e "prop.bottomRows(circ)" (Blk pr base (pr - circ lo) 0 (circ lo) base) ] ++
-         when (negb (base =? 1)) [ It e "directional_mean:exp(a)*w" (Mul (circ lo) base nw 1) ]) ++
+         (* directional_mean: a single column is returned wrapped through directional_add (commit dee9c81) *)
+         (if base =? 1 then [ It e "directional_mean:a.col(0)" (Idx base 0);
+                              It e "directional_mean:a.col(0)+0" (Same (circ lo) 1 (circ lo) 1) ]
+          else [ It e "directional_mean:exp(a)*w" (Mul (circ lo) base nw 1) ])) ++
     [ It e "offsets.topRows(lin)" (Blk odc base 0 0 (lin lo) base) ] ++
     when (pos (circ lo))
       (if quat lo then
@@ -710,7 +714,7 @@ Definition p_ext_mean (el ec pr n wn : nat) : prog :=
                   It e_ext "topRows*exp(w)" (Mul el n wn 1);
                   It e_ext "out.head(lin)=" (Same el 1 el 1) ] ++
   when (pos ec) ([ It e_ext "particles.bottomRows(circ)" (Blk pr n (pr - ec) 0 ec n) ] ++
-                 (if n =? 1 then [ It e_ext "a.col(0)" (Idx n 0) ]
+                 (if n =? 1 then [ It e_ext "a.col(0)" (Idx n 0); It e_ext "a.col(0)+0" (Same ec 1 ec 1) ]
                   else [ It e_ext "directional_mean:exp(a)*w" (Mul ec n wn 1) ]) ++
                  [ It e_ext "out.tail(circ)=" (Same ec 1 ec 1) ]).
 (* mode: weights.maxCoeff(&row,&col) needs a non-empty vector; particles.col(maxRow), maxRow < wn *)
@@ -839,7 +843,7 @@ Fixpoint obs_history (ssz : nat) (s : hstate) (ops : list hop) : list nat :=
   | o :: r => let s' := snd (h_step ssz s o) in
               (match o with HGet => [ssz; hsz s'] | _ => [] end) ++ hwin s' :: obs_history ssz s' r
   end.
-Definition obs_grid (nx ny n : nat) : list nat := [b2n (grid_ret nx ny n)].
+Definition obs_grid (nx ny n : nat) (l : layout) : list nat := [b2n (grid_ret nx ny n l)].
 Definition obs_ut (variant : nat) (li : layout) (comps : nat) (valid : bool) (lo : layout) : list nat :=
   let valid' := match variant with 1 | 2 => true | _ => valid end in b2n valid' :: ut_out li comps valid' lo.
 Definition obs_kfp (lq : layout) (compsq : nat) : list nat := [compsq; ldim lq].
